@@ -152,6 +152,34 @@ func (x *gen) size() int {
 
 func (x *gen) fileInfo(forDir bool) map[string]any {
 	fi := map[string]any{}
+	if x.g.Bool(0.25) {
+		// everything stated explicitly, or everything but one field: the
+		// shapes for which "nothing is left to default" short cuts apply
+		t := x.ts()
+		fi["owner"] = Pick(x.g, []string{"app", "daemon", "www-data"})
+		fi["group"] = Pick(x.g, []string{"app", "adm", "staff"})
+		if forDir {
+			fi["mode"] = Pick(x.g, []int{0o750, 0o700, 0o1777, 0o2775})
+		} else {
+			fi["mode"] = Pick(x.g, []int{0o600, 0o640, 0o755, 0o4755, 0o444})
+		}
+		fi["mtime"] = time.Unix(t, 0).UTC().Format(time.RFC3339)
+		fi["_mt"] = t
+		if x.g.Bool(0.5) {
+			switch Pick(x.g, []string{"owner", "group", "mode", "mtime"}) {
+			case "owner":
+				delete(fi, "owner")
+			case "group":
+				delete(fi, "group")
+			case "mode":
+				delete(fi, "mode")
+			case "mtime":
+				delete(fi, "mtime")
+				delete(fi, "_mt")
+			}
+		}
+		return fi
+	}
 	if x.g.Bool(0.6) {
 		fi["owner"] = Pick(x.g, []string{"app", "daemon", "www-data"})
 	}
@@ -250,7 +278,7 @@ func GenWorldCfg(g *Rng, opt GenOpts) (World, map[string]any) {
 		}
 	} else if opt.ForceSign || !g.Bool(0.5) {
 		// (a maintainer with an address is needed for derived apk key names)
-		cfg["maintainer"] = "Verif Harness <pkg@verif.invalid>"
+		cfg["maintainer"] = Pick(g, []string{"Verif Harness <pkg@verif.invalid>", "Verif Harness <pkg@verif.invalid>", "Build Bot <bot@builds.example.us>", "Jean <jean@exemple.fr>"})
 	} else {
 		x.feats = append(x.feats, "maintainer_unset")
 	}
@@ -462,8 +490,21 @@ func GenWorldCfg(g *Rng, opt GenOpts) (World, map[string]any) {
 	}
 	if x.feat("ghost", 0.35) {
 		m := map[string]any{"dst": "/var/log/app.log", "type": "ghost"}
-		if g.Bool(fiP) {
-			m["file_info"] = x.fileInfo(false)
+		// a ghost has no source to take anything from: what is not stated is
+		// defaulted by the packager (rpm: mode 0644), so each shape of "what
+		// is stated" is its own case
+		switch Pick(g, []string{"none", "random", "random", "all-but-mode", "all"}) {
+		case "random":
+			if g.Bool(fiP) {
+				m["file_info"] = x.fileInfo(false)
+			}
+		case "all-but-mode", "all":
+			t := x.ts()
+			fi := map[string]any{"owner": "app", "group": "adm", "mtime": time.Unix(t, 0).UTC().Format(time.RFC3339), "_mt": t}
+			if g.Bool(0.5) {
+				fi["mode"] = 0o640
+			}
+			m["file_info"] = fi
 		}
 		add(gContent{m: m})
 	}
@@ -860,7 +901,9 @@ func GenWorldCfg(g *Rng, opt GenOpts) (World, map[string]any) {
 		x.addKey("keys/apk.rsa", rsaKey)
 		apkSig := map[string]any{"key_file": "@SRC@keys/apk.rsa"}
 		if _, hasMaint := cfg["maintainer"]; g.Bool(0.5) || !hasMaint {
-			apkSig["key_name"] = "verifkey"
+			// (names as people choose them: a word, an address, an abuild-style
+			// name with a hex suffix, with the extension already there)
+			apkSig["key_name"] = Pick(g, []string{"verifkey", "verifkey", "releases", "alice@example.us", "verif-5f3c2a1b", "verifkey.rsa.pub", "repo.pub"})
 		}
 		apkBlock["signature"] = apkSig
 		w.Signed = []string{"deb", "rpm", "apk"}
@@ -1156,7 +1199,9 @@ func RenderConfig(cfg map[string]any) string {
 
 func keyID(name string) string {
 	file := name + ".keyid"
-	if strings.HasSuffix(name, ".sub") {
+	if strings.HasSuffix(name, ".oldsub") {
+		file = strings.TrimSuffix(name, ".oldsub") + ".oldsubkeyid"
+	} else if strings.HasSuffix(name, ".sub") {
 		file = strings.TrimSuffix(name, ".sub") + ".subkeyid"
 	}
 	b, err := os.ReadFile(filepath.Join(KeysDir, file))
